@@ -1031,6 +1031,81 @@ fn nested_chain_break(ast: &Ast, cbt: u8) -> bool {
     false
 }
 
+/// Contexts in which a chain that already spans several lines in the source makes the builder lay out the
+/// enclosing construct differently from the first pass (each with the builder test that reads the line structure):
+///  map        braced Map / MapPattern: `force_break = span.start.line < span.end.line`
+///  tuple      Tuple without parentheses / TempTuple / MultiAssign expression list
+///  call_force call arguments with `first.end.line < last.start.line` (the ORIGINAL test of the ChainNode::Call arm)
+///  chain_root the chain is (inside) the root of an outer chain: `span(next).end.line > chain_line`
+///  binop_split operands of a BinaryOp on different lines: `lhs.end.line != rhs.start.line`
+///  arm        body of a match / switch arm: `span(expression).start.line == span(arm).start.line` (always_indent_arms)
+///  comment_in_chain  a comment stands between the lines of the chain (the chain arm's `add_trailing_trivia()` pulled
+///             the statement's trailing comment up behind the chain's first line; the second pass finds it inside the chain)
+const UNSTABLE_CHAIN_CONTEXTS: &[&str] = &["map", "tuple", "call_force", "chain_root", "binop_split", "arm", "comment_in_chain"];
+
+/// tags of the ancestors (up to the enclosing statement) of every chain that spans several lines
+fn multiline_chain_contexts(ast: &Ast) -> Vec<String> {
+    let par = parents(ast);
+    let mut tags: Vec<String> = vec![];
+    for (i, n) in ast.nodes().iter().enumerate() {
+        let Node::Chain((ChainNode::Root(_), _)) = &n.node else { continue };
+        let sp = ast.span(n.span);
+        if sp.start.line == sp.end.line {
+            continue;
+        }
+        // only the outermost chain node of a chain (its parent is not a Chain link of the same chain)
+        let mut child = i;
+        let mut cur = par[i];
+        let mut steps = 0;
+        while cur != usize::MAX && steps < 200 {
+            steps += 1;
+            let pn = &ast.nodes()[cur].node;
+            let tag: Option<&str> = match pn {
+                Node::MainBlock { .. } | Node::Block(_) => break,
+                Node::Map { braces: true, .. } | Node::MapPattern { .. } => Some("map"),
+                Node::Map { braces: false, .. } => break,
+                Node::TempTuple(_) | Node::MultiAssign { .. } | Node::Tuple { parentheses: false, .. } => Some("tuple"),
+                Node::Tuple { parentheses: true, .. } => Some("ptuple"),
+                Node::List(_) => Some("list"),
+                Node::Nested(_) => Some("nested"),
+                Node::UnaryOp { .. } => Some("unop"),
+                Node::BinaryOp { lhs, rhs, .. } => {
+                    let (l, r) = (span_of(ast, *lhs), span_of(ast, *rhs));
+                    if l.end.line != r.start.line { Some("binop_split") } else { Some("binop") }
+                }
+                Node::Str(_) => Some("interp"),
+                Node::Assign { .. } => Some("assign"),
+                Node::MapEntry(..) => None,
+                Node::Chain((cn, _)) => match cn {
+                    ChainNode::Root(r) if usize::from(*r) == child => Some("chain_root"),
+                    ChainNode::Call { args, .. } if args.iter().any(|a| usize::from(*a) == child) => {
+                        match args.as_slice() {
+                            [first, .., last] if span_of(ast, *first).end.line < span_of(ast, *last).start.line => Some("call_force"),
+                            [_, .., _] => Some(if usize::from(args[0]) == child { "call_arg0" } else { "call_argN" }),
+                            _ => Some("call_single"),
+                        }
+                    }
+                    ChainNode::Index(_) => Some("index"),
+                    _ => None,
+                },
+                Node::MatchArm { .. } | Node::SwitchArm { .. } => Some("arm"),
+                Node::If(_) | Node::Match { .. } | Node::For(_) | Node::While { .. } | Node::Until { .. } => Some("header"),
+                Node::Function(_) | Node::FunctionArgs { .. } => Some("function"),
+                Node::Return(_) | Node::Throw(_) | Node::Yield(_) | Node::Export(_) | Node::Debug { .. } | Node::Break(_) => Some("keyword_value"),
+                _ => Some("other"),
+            };
+            if let Some(t) = tag {
+                tags.push(t.to_string());
+            }
+            child = cur;
+            cur = par[cur];
+        }
+    }
+    tags.sort();
+    tags.dedup();
+    tags
+}
+
 fn span_of(ast: &Ast, i: AstIndex) -> koto_parser::Span {
     *ast.span(ast.node(i).span)
 }
@@ -1323,7 +1398,32 @@ fn worker_handle(line: &str) -> String {
                 }
             }
         }
-        results.push(json!({"opt": o.text(), "fails": fails, "shapes": oshapes}));
+        // F-C11-5, second symptom (first-pass output parses back, second pass differs): in the FIRST-PASS OUTPUT a
+        // chain spread over several lines sits in a context whose builder code reacts to the line structure it finds
+        let mut ctx_tags: Vec<String> = vec![];
+        if fails.iter().any(|f| f["clause"].as_str() == Some("5:idempotence")) && !fails.iter().any(|f| f["clause"].as_str().is_some_and(|c| c.starts_with("2:"))) {
+            if let Ok(Ok(out1)) = kvh::catch(|| format(&src, o.to_fo())) {
+                if let Ok(Ok(ast1)) = kvh::catch(|| Parser::parse(&out1)) {
+                    ctx_tags = multiline_chain_contexts(&ast1);
+                    if let Some(t1) = lex_all(&out1) {
+                        let comment_inside = ast1.nodes().iter().any(|n| {
+                            let Node::Chain((ChainNode::Root(_), _)) = &n.node else { return false };
+                            let sp = ast1.span(n.span);
+                            sp.start.line < sp.end.line
+                                && t1.iter().any(|t| matches!(t.token, Token::CommentSingle | Token::CommentMulti)
+                                    && (t.line, t.col) > (sp.start.line, sp.start.column) && (t.line, t.col) < (sp.end.line, sp.end.column))
+                        });
+                        if comment_inside {
+                            ctx_tags.push("comment_in_chain".to_string());
+                        }
+                    }
+                    if ctx_tags.iter().any(|t| UNSTABLE_CHAIN_CONTEXTS.contains(&t.as_str())) {
+                        oshapes.push("multiline_chain_in_line_sensitive_context");
+                    }
+                }
+            }
+        }
+        results.push(json!({"opt": o.text(), "fails": fails, "shapes": oshapes, "chain_contexts": ctx_tags}));
     }
     json!({
         "parse": "ok",
@@ -2378,6 +2478,7 @@ fn mutants(src: &str, rng: &mut Rng, n: usize) -> Vec<String> {
 /// (finding id, shape on the input program, clause prefixes the finding can explain)
 const FINDINGS: &[(&str, &str, &[&str])] = &[
     ("F-C11-5", "nested_chain_break", &["2:", "3:", "5~"]),
+    ("F-C11-5", "multiline_chain_in_line_sensitive_context", &["5:idempotence"]),
     ("F-C11-11", "trailing_comment_moved_to_own_line", &["5:idempotence"]),
     ("F-C11-6", "input_line_wider_than_line_length", &["2:", "3:", "5:"]),
     ("F-C11-7", "fmt_skip_multiline", &["2:", "3:", "5~"]),
@@ -2643,7 +2744,7 @@ impl Ctx {
                             use std::io::Write;
                             if let Ok(mut fh) = std::fs::OpenOptions::new().create(true).append(true).open(path) {
                                 let _ = writeln!(fh, "{}", json!({"name": p.name, "source": p.source, "opt": o.text(), "clause": clause,
-                                    "detail": f["detail"], "output": f["output"], "program": p.src}));
+                                    "detail": f["detail"], "output": f["output"], "program": p.src, "chain_contexts": r["chain_contexts"]}));
                             }
                         }
                         if self.rep.violations.len() < 12 {
